@@ -21,9 +21,11 @@ import itertools
 import logging
 
 RULE = ("per transport (mrp, companion, http, rtsp): every interleaving of 2 requests with optional response / "
-        "timeout per request and an optional unsolicited message; for 3 (thorough: also 4) requests every "
+        "timeout per request, the second request optionally re-sending the object of the first (MRP/Companion), and an optional "
+        "device-originated message in every (kind, identifier) variant: response/event/other x none/unknown/identifier of "
+        "request 0/1 (collisions with outstanding, completed and abandoned requests); for 3 (thorough: also 4) requests every "
         "permutation of the responses x an unsolicited message at every position x a timeout of every request at "
-        "every position, in two send layouts (all first / staggered); plus 1500 (thorough: 8000) random scripts per transport with up to 5 requests "
+        "every position, in two send layouts (all first / staggered); plus 1000 (thorough: 8000) random scripts per transport with up to 5 requests "
         "(duplicates, unknown and not-yet-allocated identifiers, Companion XID burns) from ctx.rng. "
         "non-trivial = at least 2 requests outstanding at once and (a response out of send order, a timeout, or a "
         "message that answers no outstanding request); distinct = (transport, base, script)")
@@ -32,8 +34,10 @@ ASSUMPTIONS = [
     "expiry never race inside one loop iteration)",
     "MRP `type_N` pseudo identifiers and Companion auth frames (no identifier on the wire) are used one at a time "
     "by protocol design; they are not generated",
-    "uuid4 identifiers are pairwise distinct (abstracted as a fresh counter in the model; checked on the wire "
-    "for every generated script)",
+    "uuid4 identifiers are pairwise distinct (abstracted as a fresh counter per send in the model; two waiting "
+    "requests sharing a wire identifier are reported by the oracle)",
+    "MRP fixes no response type: a ProtocolMessage of any type carrying the identifier of a waiting request is its "
+    "answer; Companion: only a response frame (`_t`=3) can answer, an event or device request never does",
     "plain HTTP: the device answers the requests it received in order, each once; RTSP: only 2xx responses",
     "stop()/close() racing with waiters is outside the quantifier",
     "Companion responses that answer no outstanding request have no subscribers (only events can be listened "
@@ -50,20 +54,26 @@ PROPS_FILES = ["PyatvModel/Props/C03.lean", "PyatvModel/Props/C03Rtsp.lean"]
 KNOWN_SIG = "http-fifo:late-response-after-timeout"
 HTTP_WITNESS = "s,t0,s,rn:0"           # = PyatvModel.Props.C03.C03_http_counterexample
 TRANSPORTS = ["mrp", "companion", "http", "rtsp"]
-SETTLE = 10
+SETTLE = 50
 CUR = contextvars.ContextVar("c03_request", default=None)
 
 
 # ------------------------------------------------------------------------------ scripts
 
+MSG = ("r", "e", "o")   # response / event / other non-response (Companion `_t`; MRP: message type)
+SENDS = ("s", "S")      # new request object / re-send of the object of an earlier request
+
+
 def tok(e):
     if e[0] == "s":
         return "s"
+    if e[0] == "S":
+        return "S%d" % e[1]
     if e[0] == "b":
         return "b"
     if e[0] == "t":
         return "t%d" % e[1]
-    return "r%s:%d" % ("n" if e[1] is None else e[1], e[2])
+    return "%s%s:%d" % (e[0], "n" if e[1] is None else e[1], e[2])
 
 
 def untok(t):
@@ -71,10 +81,12 @@ def untok(t):
         return ("s",)
     if t == "b":
         return ("b",)
+    if t[0] == "S":
+        return ("S", int(t[1:]))
     if t[0] == "t":
         return ("t", int(t[1:]))
     k, v = t[1:].split(":")
-    return ("r", None if k == "n" else int(k), int(v))
+    return (t[0], None if k == "n" else int(k), int(v))
 
 
 def show(events):
@@ -85,15 +97,38 @@ def parse(script):
     return [] if script == "-" else [untok(t) for t in script.split(",")]
 
 
+def model_tok(transport, e):
+    """the model allocates a fresh key on every send whatever object is sent (that is what the
+    pinned code does); MRP does not look at the message type"""
+    if e[0] == "S":
+        return "s"
+    if transport == "mrp" and e[0] in ("e", "o"):
+        return tok(("r", e[1], e[2]))
+    return tok(e)
+
+
 def model_line(transport, base, events):
-    s = show(events)
+    s = ",".join(model_tok(transport, e) for e in events) or "-"
     if transport == "mrp":
-        return "keyed 1 1 %d %s" % (base, s)
+        return "keyed 1 1 0 %d %s" % (base, s)
     if transport == "companion":
-        return "keyed 0 0 %d %s" % (base, s)
+        return "keyed 0 0 1 %d %s" % (base, s)
     if transport == "http":
         return "fifo " + s
     return "rtsp " + s
+
+
+def script_keys(base, events):
+    """identifier of every request as the protocol rule allocates them: a fresh one per send
+    (uuid4 abstracted as a counter), Companion burns consume one"""
+    keys, nkey = [], base
+    for e in events:
+        if e[0] in SENDS:
+            keys.append(nkey)
+            nkey += 1
+        elif e[0] == "b":
+            nkey += 1
+    return keys
 
 
 def resp(transport, base, i):
@@ -101,18 +136,29 @@ def resp(transport, base, i):
     return ("r", None if transport == "http" else base + i, i)
 
 
-def unsolicited(transport, base, j, rng=None):
-    v = 100 + j
-    if transport in ("http",):
-        return ("r", None, v)
-    if transport == "rtsp":
-        return ("r", None if j % 2 else 900 + j, v)
-    return ("r", None if j % 2 == 0 else base + 900 + j, v)
+def kinds(transport):
+    return {"mrp": ("r", "e"), "companion": ("r", "e", "o")}.get(transport, ("r",))
+
+
+def uvariants(transport, base, n):
+    """(kind, identifier) of a message the device sends on its own: no identifier, one never
+    issued, and one COLLIDING with the identifier of each request of the script"""
+    if transport == "http":
+        return [("r", None)]
+    own = [base + i for i in range(n)]
+    out = [("r", k) for k in [None, base + 900] + own]
+    if transport == "mrp":          # the type is not looked at: collisions only
+        out += [("e", k) for k in own]
+    if transport == "companion":
+        out += [("e", k) for k in [None, base + 900] + own] + [("o", k) for k in [None] + own[:1]]
+    return out
 
 
 def interleavings2(transport, base):
     """every interleaving of 2 requests, each optionally answered and/or timed out, plus an
-    optional unsolicited message (HTTP: answers in request order; unsolicited only when idle)."""
+    optional message the device sends on its own in every (kind, identifier) variant
+    (HTTP: answers in request order; unsolicited only when idle); for MRP/Companion also with
+    the second request re-sending the object of the first."""
     atoms_all = ["r0", "t0", "r1", "t1", "u"]
     out = []
     for mask in range(1 << len(atoms_all)):
@@ -134,25 +180,36 @@ def interleavings2(transport, base):
                     ans = sum(1 for a in ("r0", "r1") if a in pos and pos[a] < pos["u"])
                     if sent != ans:
                         continue
-            evs = []
-            for a in order:
-                if a[0] == "s":
-                    evs.append(("s",))
-                elif a[0] == "r":
-                    evs.append(resp(transport, base, int(a[1])))
-                elif a[0] == "t":
-                    evs.append(("t", int(a[1])))
-                else:
-                    evs.append(unsolicited(transport, base, mask % 2))
-            out.append(evs)
+            uvs = uvariants(transport, base, 2) if "u" in pos else [None]
+            resend = (False, True) if transport in ("mrp", "companion") else (False,)
+            for uv in uvs:
+                for rs in resend:
+                    if rs and uv is not None and uv != uvs[0]:
+                        continue
+                    evs = []
+                    for a in order:
+                        if a == "s1" and rs:
+                            evs.append(("S", 0))
+                        elif a[0] == "s":
+                            evs.append(("s",))
+                        elif a[0] == "r":
+                            evs.append(resp(transport, base, int(a[1])))
+                        elif a[0] == "t":
+                            evs.append(("t", int(a[1])))
+                        else:
+                            evs.append((uv[0], uv[1], 100))
+                    out.append(evs)
     return out
 
 
 def structured(transport, base, n, rng):
-    """permutations of the responses x unsolicited at every position x a timeout of every
-    request at every position; sends all first, and one staggered layout per script."""
+    """permutations of the responses x a device-originated message (random kind / identifier
+    variant, collisions included) at every position x a timeout of every request at every
+    position; sends all first, and one staggered layout per script in which a send may re-send
+    the object of an earlier request."""
     out = []
     perms = [tuple(range(n))] if transport == "http" else list(itertools.permutations(range(n)))
+    uvs = uvariants(transport, base, n)
     for perm in perms:
         tail0 = [resp(transport, base, i) for i in perm]
         for upos in [None] + list(range(len(tail0) + 1)):
@@ -160,7 +217,8 @@ def structured(transport, base, n, rng):
                 continue
             tail1 = list(tail0)
             if upos is not None:
-                tail1.insert(upos, unsolicited(transport, base, upos))
+                kd, k = rng.choice(uvs)
+                tail1.insert(upos, (kd, k, 100 + upos))
             for tmo in [None] + [(r, p) for r in range(n) for p in range(len(tail1) + 1)]:
                 tail = list(tail1)
                 if tmo is not None:
@@ -174,9 +232,14 @@ def structured(transport, base, n, rng):
                 for i in range(n):
                     lo = rng.randint(lo, upper[i])
                     slots.append(lo)
-                evs = []
+                evs, nsent = [], 0
                 for j in range(len(tail) + 1):
-                    evs += [("s",)] * slots.count(j)
+                    for _ in range(slots.count(j)):
+                        if nsent and transport in ("mrp", "companion") and rng.chance(0.3):
+                            evs.append(("S", rng.randrange(nsent)))
+                        else:
+                            evs.append(("s",))
+                        nsent += 1
                     if j < len(tail):
                         evs.append(tail[j])
                 if transport == "http" and not http_script_ok(evs):
@@ -189,7 +252,7 @@ def http_script_ok(evs):
     """HTTP device discipline: i-th answer is for request i; extra responses only when idle"""
     sent = ans = 0
     for e in evs:
-        if e[0] == "s":
+        if e[0] in SENDS:
             sent += 1
         elif e[0] == "r":
             if e[2] >= 100:
@@ -224,7 +287,7 @@ def random_script(transport, base, rng, nmax=5, maxlen=18):
                 choices += ["r"] * 4
             if answered:
                 choices += ["d"]
-            choices += ["u"]
+            choices += ["u"] * 2
         if sent - len(timed) > 0:
             choices += ["t"] * 2
         if transport == "companion":
@@ -233,9 +296,12 @@ def random_script(transport, base, rng, nmax=5, maxlen=18):
             break
         c = rng.choice(choices)
         if c == "s":
+            if keys and transport in ("mrp", "companion") and rng.chance(0.3):
+                evs.append(("S", rng.randrange(len(keys))))   # same request object again
+            else:
+                evs.append(("s",))
             keys.append(nkey)
             nkey += 1
-            evs.append(("s",))
         elif c == "b":
             nkey += 1
             evs.append(("b",))
@@ -253,14 +319,19 @@ def random_script(transport, base, rng, nmax=5, maxlen=18):
             evs.append(("r", keys[i], 50 + dup))
             dup += 1
         elif c == "u":
-            kind = rng.randint(0, 2)
-            if transport == "http" or kind == 0:
+            kd = rng.choice(kinds(transport))
+            sel = rng.randint(0, 3)
+            if transport == "http" or sel == 0:
                 k = None
-            elif kind == 1 or transport == "mrp":
+            elif sel == 1:
                 k = base + 900 + uns        # never allocated
+            elif sel == 2 and keys and kd != "r":
+                k = rng.choice(keys)        # collides with an outstanding / completed / abandoned request
+            elif transport == "mrp":
+                k = base + 900 + uns
             else:
                 k = nkey + rng.randint(0, 1)  # not yet allocated (a later request may get it)
-            evs.append(("r", k, 100 + uns))
+            evs.append((kd, k, 100 + uns))
             uns += 1
         else:
             i = rng.choice([i for i in range(sent) if i not in timed])
@@ -299,6 +370,7 @@ class MrpAdapter:
 
         self.obs, self.base, self.keys = obs, base, []
         self.messages, self.protobuf = messages, protobuf
+        self.objects, self.type_of = {}, {}
         adapter = self
 
         class Conn:
@@ -330,7 +402,7 @@ class MrpAdapter:
             self.listeners[ti] = [("sync", ti), ("async", ti)]
 
     def expected_listeners(self, k, v):
-        return self.listeners[v % len(self.types)]
+        return self.listeners[self.type_of.get(v, 0)]
 
     def payload(self, message):
         try:
@@ -353,16 +425,20 @@ class MrpAdapter:
         i = k - self.base
         return self.keys[i] if 0 <= i < len(self.keys) else "UNALLOCATED-%d" % k
 
-    async def request(self, r, timeout):
-        msg = self.messages.create(self.protobuf.GENERIC_MESSAGE)
+    async def request(self, r, timeout, obj=None):
+        # obj = j: the very ProtocolMessage object of request j is sent again (as the heartbeat does)
+        msg = self.objects[obj] if obj is not None else self.messages.create(self.protobuf.GENERIC_MESSAGE)
+        self.objects[r] = msg
         got = await self.prot.send_and_receive(msg, timeout=timeout)
         return self.mkey(got.identifier), self.payload(got)
 
     def burn(self):
         raise RuntimeError("no burn in MRP")
 
-    def recv(self, k, v):
-        msg = self.messages.create(self.types[v % len(self.types)], identifier=self.real(k))
+    def recv(self, kind, k, v):
+        ti = MSG.index(kind)            # the message type; MRP matching does not look at it
+        self.type_of[v] = ti
+        msg = self.messages.create(self.types[ti], identifier=self.real(k))
         msg.uniqueIdentifier = str(v)
         self.prot.message_received(msg, None)
 
@@ -376,6 +452,7 @@ class CompanionAdapter:
         self.obs, self.base = obs, base
         self.opack, self.FrameType = opack, FrameType
         self.nsent = 0
+        self.objects = {}
         adapter = self
 
         class Conn:
@@ -403,19 +480,27 @@ class CompanionAdapter:
     def expected_listeners(self, k, v):
         return [("event", 0)]
 
-    async def request(self, r, timeout):
-        got = await self.prot.exchange_opack(self.FrameType.E_OPACK, {"_i": "req", "_t": 2, "_c": {"r": r}},
-                                             timeout=timeout)
+    async def request(self, r, timeout, obj=None):
+        # obj = j: the very dict object of request j (it already carries that request's `_x`)
+        data = self.objects[obj] if obj is not None else {"_i": "req", "_t": 2, "_c": {"r": r}}
+        self.objects[r] = data
+        got = await self.prot.exchange_opack(self.FrameType.E_OPACK, data, timeout=timeout)
         return got.get("_x"), got.get("_c", {}).get("v", -1)
 
     def burn(self):
         self.prot.send_opack(self.FrameType.E_OPACK, {"_i": "evt-out", "_t": 1, "_c": {}})
 
-    def recv(self, k, v):
-        if k is None:
+    def recv(self, kind, k, v):
+        if kind == "e":
             data = {"_i": "evt", "_t": 1, "_c": {"v": v}}
+        elif kind == "r":
+            data = {"_t": 3, "_c": {"v": v}}
+        elif v % 2:
+            data = {"_i": "req-from-device", "_t": 2, "_c": {"v": v}}
         else:
-            data = {"_t": 3, "_x": k, "_c": {"v": v}}
+            data = {"_i": "untyped", "_c": {"v": v}}
+        if k is not None:
+            data["_x"] = k          # every kind may carry a transaction id field
         self.prot.frame_received(self.FrameType.E_OPACK, self.opack.pack(data))
 
 
@@ -449,7 +534,7 @@ class HttpAdapter:
     def expected_listeners(self, k, v):
         return []
 
-    async def request(self, r, timeout):
+    async def request(self, r, timeout, obj=None):
         got = await self.conn.send_and_receive("GET", "/req%d" % r, timeout=timeout)
         body = got.body if isinstance(got.body, str) else bytes(got.body).decode()
         return None, int(body.split("-")[1])
@@ -457,7 +542,9 @@ class HttpAdapter:
     def burn(self):
         pass
 
-    def recv(self, k, v):
+    def recv(self, kind, k, v):
+        if kind != "r":
+            return              # HTTP / RTSP carry responses only
         body = b"resp-%d" % v
         self.conn.data_received(b"HTTP/1.1 200 OK\r\nContent-Length: %d\r\n\r\n" % len(body) + body)
 
@@ -512,7 +599,7 @@ class RtspAdapter:
     def expected_listeners(self, k, v):
         return []
 
-    async def request(self, r, timeout):
+    async def request(self, r, timeout, obj=None):
         got = await self.session.exchange("OPTIONS", headers={"X-Req": r})
         body = got.body if isinstance(got.body, str) else bytes(got.body).decode()
         c = got.headers.get("CSeq")
@@ -521,7 +608,9 @@ class RtspAdapter:
     def burn(self):
         pass
 
-    def recv(self, k, v):
+    def recv(self, kind, k, v):
+        if kind != "r":
+            return              # HTTP / RTSP carry responses only
         body = b"resp-%d" % v
         hdr = b"RTSP/1.0 200 OK\r\n"
         if k is not None:
@@ -532,7 +621,12 @@ class RtspAdapter:
 # ------------------------------------------------------------------------------ execution
 
 async def settle():
+    """run the loop until idle: nothing is ready any more (timers do not fire by themselves
+    under virtual time while something is ready or while we do not sleep)"""
+    loop = asyncio.get_event_loop()
     for _ in range(SETTLE):
+        if not loop._ready:
+            break
         await asyncio.sleep(0)
 
 
@@ -544,14 +638,14 @@ async def run_script(transport, base, events):
     deadlines, tdead = {}, []
     seen = 0
     for e in events:
-        if e[0] == "s":
+        if e[0] in SENDS:
             seen += 1
         if e[0] == "t":
             d = t0 + 1000.0 * (len(tdead) + 1)
             tdead.append(d)
             if e[1] < seen:  # a timer exists only once the request was made
                 deadlines.setdefault(e[1], d)
-    nsend = sum(1 for e in events if e[0] == "s")
+    nsend = sum(1 for e in events if e[0] in SENDS)
     for r in range(nsend):
         deadlines.setdefault(r, t0 + 1.0e7)
 
@@ -566,10 +660,10 @@ async def run_script(transport, base, events):
         ad = RtspAdapter(obs, base, deadlines)
     obs.steps.clear()
 
-    async def caller(r):
+    async def caller(r, obj):
         CUR.set(r)
         try:
-            k, v = await ad.request(r, deadlines[r] - loop.time())
+            k, v = await ad.request(r, deadlines[r] - loop.time(), obj)
             obs.add("dlv", r, k, v)
         except asyncio.CancelledError:
             raise
@@ -584,12 +678,13 @@ async def run_script(transport, base, events):
         for e in events:
             obs.begin()
             try:
-                if e[0] == "s":
-                    tasks.append(asyncio.ensure_future(caller(len(tasks))))
+                if e[0] in SENDS:
+                    obj = e[1] if e[0] == "S" and e[1] < len(tasks) else None
+                    tasks.append(asyncio.ensure_future(caller(len(tasks), obj)))
                 elif e[0] == "b":
                     ad.burn()
-                elif e[0] == "r":
-                    ad.recv(e[1], e[2])
+                elif e[0] in MSG:
+                    ad.recv(e[0], e[1], e[2])
                 else:
                     d = tdead[ti]
                     ti += 1
@@ -635,12 +730,15 @@ def canon_step(ad, event, step):
     return sorted(out)
 
 
-def canon_model(answer):
+def canon_model(answer, transport=None):
     if answer == "=":
         return []
     steps = []
     for s in answer.split(";"):
         toks = [] if s == "-" else [t for t in s.split(",") if not t.startswith("drp:")]
+        if transport == "companion":
+            # event_received(name, data) does not show the `_x` field to the listener
+            toks = ["dsp:n:" + t.split(":")[2] if t.startswith("dsp:") else t for t in toks]
         steps.append(sorted(toks))
     return steps
 
@@ -654,7 +752,8 @@ def oracle(transport, base, events, steps, ad, perm_script):
     keyed = transport in ("mrp", "companion", "rtsp")
     wire = {}          # request -> identifier seen on the wire
     outcome = {}       # request -> (step, token)
-    recv_at = {}       # payload -> (step, key)
+    recv_at = {}       # payload -> (step, kind, key)
+    skeys = script_keys(base, events)   # identifier of each request by the protocol's rule
     timer_fired = {}   # request -> step at which its timer fired while it was waiting
     nsent = 0
     cascade = False
@@ -667,25 +766,30 @@ def oracle(transport, base, events, steps, ad, perm_script):
         else:
             problems.append(("%s:%s" % (transport, kind), what))
 
-    def answers(k, v):
-        """which request does message (k, v) answer, according to the protocol's rule"""
+    def answers(kind, k, v):
+        """which request does message (kind, k, v) answer, according to the protocol's rule:
+        HTTP by order; RTSP / MRP the request that was given this identifier (MRP does not fix a
+        response type); Companion only a response frame can answer — an event is not an answer"""
         if transport == "http":
-            return v if v < 100 else None
-        hits = [r for r, key in wire.items() if key == k and k is not None]
-        return hits[0] if len(hits) == 1 else None
+            return v if v < 100 and kind == "r" else None
+        if kind != "r" and transport != "mrp":
+            return None
+        return skeys.index(k) if k in skeys else None
 
     for si, (e, step) in enumerate(zip(events, steps)):
         waiting_before = {r for r in range(nsent) if r not in outcome}
-        if e[0] == "s":
+        if e[0] in SENDS:
             r = nsent
             nsent += 1
             snt = [t for t in step if t[0] == "snt"]
             if len(snt) == 1:
                 wire[r] = snt[0][2]
-                if keyed and list(wire.values()).count(snt[0][2]) > 1:
-                    add("identifier-reused", "request %d was sent with identifier %s already used" % (r, snt[0][2]))
-        if e[0] == "r":
-            recv_at[e[2]] = (si, e[1])
+                clash = [q for q in waiting_before if wire.get(q) == snt[0][2]]
+                if keyed and clash:
+                    add("identifier-shared", "request %d was sent with identifier %s while request %s is waiting "
+                        "with the same identifier" % (r, snt[0][2], clash))
+        if e[0] in MSG:
+            recv_at[e[2]] = (si, e[0], e[1])
         for t in step:
             if t[0] == "err" or t[0] == "raised":
                 add("unexpected-error", "event %d (%s): %s" % (si, tok(e), t))
@@ -704,35 +808,33 @@ def oracle(transport, base, events, steps, ad, perm_script):
             if v not in recv_at:
                 add("misdelivery", "caller %d returned a message (%s) that was never received" % (r, v))
                 continue
-            k_sent = recv_at[v][1]
-            own = answers(k_sent, v)
+            kind_sent, k_sent = recv_at[v][1], recv_at[v][2]
+            own = answers(kind_sent, k_sent, v)
             late = transport == "http" and own is not None and own in timer_fired and timer_fired[own] < recv_at[v][0]
             if own != r:
-                add("misdelivery", "caller %d (identifier %s) returned message %d carrying identifier %s which "
-                    "answers request %s" % (r, wire.get(r), v, k_sent, own), late=late)
-            elif keyed and k != wire.get(r):
-                add("misdelivery", "caller %d (identifier %s) returned a message with identifier %s"
-                    % (r, wire.get(r), k))
-        if e[0] == "r":
-            _, k, v = e
-            target = answers(k, v)
+                add("misdelivery", "caller %d (identifier %s) returned message %s%s:%d which answers %s"
+                    % (r, skeys[r] if r < len(skeys) else None, kind_sent, k_sent, v,
+                       "no request" if own is None else "request %d" % own), late=late)
+        if e[0] in MSG:
+            kind, k, v = e
+            target = answers(kind, k, v)
             if target is not None and target not in waiting_before:
                 target = None
             got = [t for t in step if t[0] == "dlv" and t[3] == v]
             lst = [t for t in step if t[0] == "dsp" and t[3] == v]
             if target is None:
-                if transport == "mrp" or (transport == "companion" and k is None):
+                if transport == "mrp" or (transport == "companion" and kind == "e"):
                     want = sorted(ad.expected_listeners(k, v))
                     have = sorted(t[1] for t in lst)
                     if have != want:
-                        add("unsolicited-not-dispatched-once", "message %s:%d answers no outstanding request; "
-                            "listener deliveries %s, required once to each of %s" % (k, v, have, want))
+                        add("unsolicited-not-dispatched-once", "message %s%s:%d answers no outstanding request; "
+                            "listener deliveries %s, required once to each of %s" % (kind, k, v, have, want))
                 if got:
                     pass  # already reported as misdelivery above
             else:
                 if transport in ("mrp", "companion", "http") and not any(t[1] == target for t in got):
-                    add("response-not-delivered", "message %s:%d answers waiting request %d but was not returned "
-                        "to it (step: %s)" % (k, v, target, step))
+                    add("response-not-delivered", "message %s%s:%d answers waiting request %d but was not returned "
+                        "to it (step: %s)" % (kind, k, v, target, step))
         if e[0] == "t":
             r = e[1]
             if r in waiting_before:
@@ -766,15 +868,15 @@ def nontrivial(events):
     interesting = False
     nexti = 0
     for e in events:
-        if e[0] == "s":
+        if e[0] in SENDS:
             waiting.add(sent)
             sent += 1
         elif e[0] == "t":
             if e[1] in waiting:
                 waiting.discard(e[1])
                 interesting = True
-        elif e[0] == "r":
-            if e[2] < 50 and e[2] in waiting:
+        elif e[0] in MSG:
+            if e[0] == "r" and e[2] < 50 and e[2] in waiting:
                 if e[2] != min(waiting):
                     interesting = True
                 waiting.discard(e[2])
@@ -796,7 +898,7 @@ def gen_cases(ctx):
             for evs in structured(transport, base, n, rng.fork("stagger", transport, n)):
                 cases.append((transport, base, evs))
         r2 = rng.fork("random", transport)
-        for _ in range(ctx.scale(1500, 8000)):
+        for _ in range(ctx.scale(1000, 8000)):
             b = 0 if transport != "companion" else r2.randint(0, 65536)
             cases.append((transport, b, random_script(transport, b, r2)))
     return cases
@@ -830,7 +932,7 @@ def run(ctx, only=None):
     for (transport, base, evs, steps, ad), ans in zip(results, answers):
         script = show(evs)
         case = {"transport": transport, "base": base, "script": script}
-        nreq = sum(1 for e in evs if e[0] == "s")
+        nreq = sum(1 for e in evs if e[0] in SENDS)
         ctx.note("transport:" + transport)
         ctx.note("requests:%d" % nreq)
         ctx.note("timeouts:%d" % min(3, sum(1 for e in evs if e[0] == "t")))
@@ -839,7 +941,7 @@ def run(ctx, only=None):
             impl = [sorted(":".join(map(str, t)) for t in s) for s in steps]
         else:
             impl = [canon_step(ad, e, s) for e, s in zip(evs, steps)]
-        model = canon_model(ans)
+        model = canon_model(ans, transport)
         outcomes = sorted(t for s in impl for t in s if not t.startswith("snt"))
         ctx.case([transport, base, script], nontrivial(evs),
                  sample={"transport": transport, "base": base, "script": script, "observed": outcomes})
